@@ -1,6 +1,6 @@
 import LeptosModel.Model.Reactive
 import LeptosModel.Model.ReactiveOld
-import LeptosModel.Proofs.ReactiveTop
+import LeptosModel.Proofs.ReactiveJust
 /-!
 # C09 — computations run only when something they read has changed
 
@@ -14,9 +14,10 @@ namespace Leptos.Reactive
 def unjustIn (log : List Ev) : Bool := log.any fun e => match e with | .unjust _ => true | _ => false
 
 /-- **full statement**: for every well-formed program and every history of writes, reads and
-executor polls, no memo or effect body runs without justification.  OPEN for programs with effects
-(it was FALSE of the code before the repair 4084efd, see `C09_effect_double_run_witness`; after the repair no
-counterexample is known: 0 in 63 000 generated programs x histories); PROVED for effect-free programs below. -/
+executor polls, no memo or effect body runs without justification.  OPEN only for programs with
+`untrack(..)` reads: `C09_run_justified` below proves it for every WF program whose bodies use tracked
+reads only (memos and effects, all histories).  It was FALSE of the code before the repair 4084efd, see
+`C09_effect_double_run_witness`. -/
 def C09_run_justified_full : Prop :=
   ∀ (p : Prog) (ops : List Op), WF p = true → unjustIn (run p ops).log = false
 
@@ -62,11 +63,28 @@ theorem unjustIn_false_iff (log : List Ev) : unjustIn log = false ↔ ∀ i, Ev.
       | unjust i => exact absurd he (h i)
       | _ => simp at hm
 
+/-- **all WF programs with tracked reads only** (memos AND effects, every history incl. polls, pause,
+resume, dispose; repaired `effUpdate`): no body ever runs unjustified.  This is `C09_run_justified_full`
+restricted by the decidable hypothesis `bodiesTracked p = true` (= `progTracked` of C01: no
+`untrack(..)` reads); what is missing for the full statement is only the treatment of untracked reads
+in the body evaluator lemma. -/
+theorem C09_run_justified :
+    ∀ (p : Prog) (ops : List Op), WF p = true → bodiesTracked p = true →
+      unjustIn (run p ops).log = false := by
+  intro p ops hwf ht
+  exact (unjustIn_false_iff _).2 (no_unjust hwf ht ops)
+
+/-- effect-free corollary (first stage of the proof, kept) -/
 theorem C09_memo_run_justified :
     ∀ (p : Prog) (ops : List Op), WF p = true → noEff p = true → bodiesTracked p = true →
-      unjustIn (run p ops).log = false := by
-  intro p ops hwf hne ht
-  exact (unjustIn_false_iff _).2 (no_unjust_noeff hwf (memoOK_of_wf hwf ht) hne ops)
+      unjustIn (run p ops).log = false :=
+  fun p ops hwf _ ht => C09_run_justified p ops hwf ht
+
+/-- non-vacuity with an effect: the repaired F-C09-1 program, two writes, the effect runs three times -/
+example :
+    WF c09Prog = true ∧ bodiesTracked c09Prog = true ∧
+    ((run c09Prog [.idle, .set 0 1, .idle, .set 0 2, .poll 0]).get 3).runs = 3 ∧
+    unjustIn (run c09Prog [.idle, .set 0 1, .idle, .set 0 2, .poll 0]).log = false := by decide +kernel
 
 /-- non-vacuity: the memo part of `c09Prog` with a write and re-reads; memo 2 runs twice, justified -/
 example :
